@@ -24,6 +24,7 @@ fn ws_tail(rng: &mut Rng) -> String {
     (0..n).map(|_| *rng.pick(&[' ', '\n', '\t', '\r', '\u{a0}', '\u{3000}', '\u{b}'])).collect()
 }
 
+static SLOW_DONE: std::sync::atomic::AtomicUsize = std::sync::atomic::AtomicUsize::new(0);
 pub fn c13(opts: &Opts) -> Report {
     let bin = opts.cli_bin.clone();
     if bin.is_empty() { let mut r = Report::new("C13", "no CLI binary"); r.violation("C13: CLI binary not built".into(), vec![("kind".into(), "correspondence".into())]); return r; }
@@ -34,15 +35,21 @@ pub fn c13(opts: &Opts) -> Report {
         "generated configurations of the binary built from the working tree: template source (argument / file with surrounding whitespace / unreadable file / both) x input source (argument / stdin / file with trailing whitespace / both / missing) x --debug x --quiet x --validate, templates valid, invalid and failing at run time, inputs with trailing Unicode whitespace; stdout bytes, exit status and stderr class are compared with the model of main.rs and with Template::parse/format called in-process; distinct by configuration",
         opts.cases(600, 20_000), &|ctx, i| {
             // template text
-            let tpl: String = match ctx.rng.below(8) {
+            let tpl: String = if i % 40 == 19 {
+                // literal text that begins with '!', a map over a list that a range has emptied, glue of one blank,
+                // a text of several lines (meant for a template file, legal as an argument too)
+                ctx.rep.bump("marker_like_and_multiline_templates");
+                ["!important: {upper}", "!{upper}", "!", "<{split:,:5..|map:{upper}|join:-}>", "{!split:,:7..|map:{upper}}", "{upper} {lower}", "{!upper} {lower}",
+                 "{upper}\n{nope}", "first {upper}\nsecond {lower}\nthird", "{upper}\n{lower", "{split:,:..|filter:^zz$|map:{pad:3}}"][(i / 40) as usize % 11].to_string()
+            } else { match ctx.rng.below(8) {
                 0 => { let ops = wf_pipeline(&mut ctx.rng, 4); let t = print_block(&ops); let cs: Vec<char> = t.chars().collect(); cs[..cs.len() - 1].iter().collect() } // unclosed
                 1 => "{nope}".into(),
                 2 => "{split:,:..|upper}".into(),            // fails at run time
                 3 => assemble(&segments(&mut ctx.rng, 4)).0,
                 4 => format!("{{!{}}}", print_ops(&wf_pipeline(&mut ctx.rng, 3))),
                 _ => assemble(&[Seg::Sec(wf_pipeline(&mut ctx.rng, 4))]).0,
-            };
-            let body = if i % 40 == 11 {
+            } };
+            let body = if i % 40 == 15 { ctx.rep.bump("bom_first"); format!("{}{}", '\u{feff}', gens::word(&mut ctx.rng)) } else if i % 40 == 11 {
                 // a result with a line break and a long last line (beyond any line buffer)
                 ctx.rep.bump("long_last_line"); format!("header\n{}", "b".repeat(1000 + ctx.rng.below(1500)))
             } else if i % 40 == 31 { "x".repeat(9000) + "\nend" } else { match ctx.rng.below(8) {
@@ -59,10 +66,14 @@ pub fn c13(opts: &Opts) -> Report {
             let dash_case = i % 20 == 3;
             let (tpl, input) = if dash_case { (ctx.rng.pick(&["[{append:!}]", "{split:-:..|join:+}", "{upper}", "<{}>"]).to_string(), ctx.rng.pick(&["-", "-", "--"]).to_string()) } else { (tpl, input) };
             if dash_case { ctx.rep.bump("dash_input_argument"); }
+            // twice per run: a producer on stdin that takes its time (the reader must wait for end of input)
+            let slow_case = i == 9 || i == 29;
+            let (tpl, input) = if slow_case { (ctx.rng.pick(&["{upper}", "<{split:,:..|join:-}>"]).to_string(), "hello,wörld\n".to_string()) } else { (tpl, input) };
             if !arg_safe(&tpl) || !arg_safe(&input) { return; }
-            let debug = ctx.rng.chance(1, 4); let quiet = ctx.rng.chance(1, 4); let validate = ctx.rng.chance(1, 6) && !dash_case;
-            let tmode = if dash_case { 0 } else { ctx.rng.below(10) };   // 0-5 arg, 6-7 file, 8 unreadable file, 9 both
-            let imode = if dash_case { 0 } else { ctx.rng.below(10) };   // 0-3 arg, 4-6 stdin, 7 file, 8 unreadable, 9 both
+            let special = i % 40 == 19;
+            let debug = if special { ((i / 40) / 11) % 2 == 0 } else { ctx.rng.chance(1, 4) && !slow_case }; let quiet = ctx.rng.chance(1, 4) && !special; let validate = ctx.rng.chance(1, 6) && !dash_case && !slow_case && !special;
+            let tmode = if dash_case || slow_case { 0 } else if special && tpl.contains('\n') { 6 } else { ctx.rng.below(10) };   // 0-5 arg, 6-7 file, 8 unreadable file, 9 both
+            let imode = if dash_case { 0 } else if slow_case { 4 } else { ctx.rng.below(10) };   // 0-3 arg, 4-6 stdin, 7 file, 8 unreadable, 9 both
             let tfile = dir_ref.join(format!("t{}", i)); let ifile = dir_ref.join(format!("i{}", i));
             let tpad_l = ws_tail(&mut ctx.rng); let tpad_r = ws_tail(&mut ctx.rng);
             let mut cmd = Command::new(&bin);
@@ -93,7 +104,10 @@ pub fn c13(opts: &Opts) -> Report {
             ctx.rep.eval();
             ctx.rep.nontrivial(&(tsrc.clone(), isrc.clone(), stdin_data.clone(), debug, quiet, validate));
             let mut child = match cmd.spawn() { Ok(c) => c, Err(e) => { viol(ctx, "correspondence", format!("C13: cannot spawn {bin}: {e}"), vec![]); return; } };
-            { let mut si = child.stdin.take().unwrap(); let _ = si.write_all(stdin_data.as_bytes()); }
+            { let mut si = child.stdin.take().unwrap();
+              // once per run: a producer that takes its time (the reader must wait for end of input)
+              if slow_case || (i >= 8 && matches!(imode, 4..=6) && !validate && !stdin_data.trim().is_empty() && matches!(tmode, 0..=5) && SLOW_DONE.fetch_add(1, std::sync::atomic::Ordering::SeqCst) < 2) { ctx.rep.bump("slow_stdin_producer"); std::thread::sleep(std::time::Duration::from_millis(2300)); }
+              let _ = si.write_all(stdin_data.as_bytes()); }
             let out = child.wait_with_output().unwrap();
             let _ = std::fs::remove_file(&tfile); let _ = std::fs::remove_file(&ifile);
             let stdout = String::from_utf8_lossy(&out.stdout).to_string();
